@@ -29,9 +29,10 @@ type (
 	}
 	CCond  struct{ C, A, B CExpr }
 	CQuant struct {
-		Forall bool
-		Vars   []CParam
-		Body   CExpr
+		Forall  bool
+		Vars    []CParam
+		Body    CExpr
+		Witness []CExpr // exists only: candidate witnesses offered to the prover
 	}
 	CCall struct {
 		Fun  string
@@ -43,7 +44,7 @@ type (
 		X    CExpr
 		Name string
 	}
-	CParam struct{ Name, Type string }
+	CParam    struct{ Name, Type string }
 	CAnyTable struct {
 		Var, Table string
 		Body       CExpr
@@ -614,6 +615,20 @@ func (p *cparser) expr() (CExpr, error) {
 			}
 			break
 		}
+		var wit []CExpr
+		if p.peek().kind == "id" && p.peek().s == "witness" {
+			p.next()
+			for {
+				w, err := p.expr()
+				if err != nil {
+					return nil, err
+				}
+				wit = append(wit, w)
+				if !p.accept(",") {
+					break
+				}
+			}
+		}
 		if err := p.expect("::"); err != nil {
 			return nil, err
 		}
@@ -621,7 +636,7 @@ func (p *cparser) expr() (CExpr, error) {
 		if err != nil {
 			return nil, err
 		}
-		return &CQuant{Forall: t.s == "forall", Vars: vars, Body: body}, nil
+		return &CQuant{Forall: t.s == "forall", Vars: vars, Body: body, Witness: wit}, nil
 	}
 	if t.kind == "id" && t.s == "anytable" {
 		p.next()
@@ -681,7 +696,7 @@ func (p *cparser) typeText() (string, error) {
 	var sb strings.Builder
 	for {
 		t := p.peek()
-		if t.kind == "eof" || (t.kind == "op" && (t.s == "," || t.s == "::")) {
+		if t.kind == "eof" || (t.kind == "op" && (t.s == "," || t.s == "::")) || (t.kind == "id" && t.s == "witness" && sb.Len() > 0) {
 			break
 		}
 		sb.WriteString(t.s)
